@@ -204,8 +204,6 @@ type access =
 | AcRead
 | AcReadWrite
 
-val cacc_eqb : cacc -> cacc -> bool
-
 val merge_acc : cacc -> cacc -> cacc option
 
 val neg_acc : cacc -> cacc
@@ -217,6 +215,8 @@ val pos_acc : cacc -> bool
 val var_acc : access -> cacc
 
 val join_acc : access -> access -> access option
+
+val conflict_acc : cacc -> bool
 
 type case = (n * cacc) list
 
@@ -454,8 +454,8 @@ type evv = { ev_ser : n; ev_val : n; ev_id : key }
 type qitem = { qi_targeted : bool; qi_idx : n; qi_target : key; qi_ev : evv }
 
 type logent = { lg_handler : key; lg_targeted : bool; lg_tag : n;
-                lg_ev : evv; lg_target : key; lg_recv_item : item list;
-                lg_views : (n * item list) list }
+                lg_ev : evv; lg_target : key; lg_resets : n;
+                lg_recv_item : item list; lg_views : (n * item list) list }
 
 type hst = { k_ids : key list; k_fuel : n; k_serial : n; k_inv : n;
              k_panic_at : n; k_log : logent list }
@@ -628,7 +628,7 @@ val cache_items :
 
 val recv_item : world -> query -> centry list -> eloc -> (fail, item) sum
 
-val bump_vals : n list -> n list -> n -> cval list -> cval list
+val bump_vals : (n -> bool) -> n list -> n list -> n -> cval list -> cval list
 
 val write_arch : world -> query -> n -> n -> n option -> world
 
@@ -651,6 +651,8 @@ val push_known : world -> key -> world
 val run_actions :
   act list -> rparam list -> key -> key list -> qitem list -> world -> (qitem
   list * world) * fail option
+
+val ev_has_payload : bool -> n -> bool
 
 val param_views :
   world -> rparam list -> eloc -> (fail, item list * (n * item list) list) sum
